@@ -176,18 +176,4 @@ T_Fold == \A p \in Lattice : OnBoundary(p) =>
 T_LookupCentre == \A p \in AllPos : p[1] + 1 <= R => Admissible(Centre(p[1], p[2], p[3]).pt, p[1]) = {p}
 T_AdmIsHolds == \A p \in AllPos : \A q \in {<<0, 0>>, <<H, H>>, <<S, H>>, <<1, 0>>, <<H + 1, H>>, <<3, S>>} : Holds(q, TileAt(p)) <=> p \in Admissible(q, p[1])
 
-\* ---------------------------------------------------------------- point lookup as a state machine (toast_tile_for_point)
-\* state: the query point and the tile reached so far; Descend moves to a child whose closed cell holds the point
-\* (the code scores the four children by half-space tests and takes one with score 0: any child holding the point)
-VARIABLES qp, cur
-lvars == <<qp, cur>>
-LInit == qp \in Lattice /\ cur \in Admissible(qp, 1)
-Descend == /\ cur[1] < MaxDepth
-           /\ \E i \in 1..4 : LET ch == Div4(TileAt(cur))[i] IN Holds(qp, ch) /\ cur' = ch.pos
-           /\ UNCHANGED qp
-LSpec == LInit /\ [][Descend]_lvars
-\* the tile returned at every depth holds the point; results for increasing depths are nested; the descent never gets stuck
-LookupHolds == cur \in Admissible(qp, cur[1])
-LookupNested == [][cur'[1] = cur[1] + 1 /\ cur'[2] \div 2 = cur[2] /\ cur'[3] \div 2 = cur[3]]_lvars
-NeverStuck == cur[1] < MaxDepth => \E i \in 1..4 : Holds(qp, Div4(TileAt(cur))[i])
 =============================================================================
